@@ -42,7 +42,7 @@ def synthesize(name: str, bases: tuple[type, ...], **kwargs: Any) -> type:
 
     found = __registry.get(name)
     if isinstance(found, type):
-        if all(issubclass(found, b) for b in bases):
+        if found.__bases__ == bases:
             return found
         # else: the same name declared with other bases, synthesize anew
     elif found:
